@@ -19,6 +19,8 @@ BINNINGS = {
     "A2": (np.array([0.1, 0.4, 0.7, 1.0]), "left"),
     "B": (np.array([0.1, 0.3, 0.8, 1.0]), "right"),
     "C": (np.array([0.1, 0.55, 1.0]), "right"),
+    # A with one inner edge moved by a relative 2e-6: the objects sitting exactly on 0.4 change bins
+    "A3": (np.array([0.1, 0.4 * (1.0 - 2e-6), 0.7, 1.0]), "right"),
 }
 
 
